@@ -366,7 +366,13 @@ def run_csv(case, long_only=True):
             market.write_market(other_v, path + '_other')
             sources = sources + [q.CSVDailyBarDataSource(path + '_other', q.Equity, adjust_prices=case['adjust'],
                                                          csv_symbols=list(syms))]
-        dh = q.BacktestDataHandler(None, data_sources=sources)
+        # the handler may carry a universe - prices do not depend on it: not even on one that lists the assets only later
+        huni = None
+        if case.get('handler_universe') == 'later':
+            huni = q.DynamicUniverse({'EQ:' + s: t + pd.Timedelta(days=40) for s in syms})
+        elif case.get('handler_universe') == 'empty':
+            huni = q.StaticUniverse([])
+        dh = q.BacktestDataHandler(huni, data_sources=sources)
         # the broker's own clock may lag the instant the sizer is asked about (cash only, so equity does not depend on it)
         tb = t - pd.Timedelta(days=case.get('broker_days_back', 0))
         b = q.SimulatedBroker(tb, q.SimulatedExchange(tb), dh, initial_funds=case['equity'],
@@ -513,6 +519,7 @@ def csv_cases(draw, long_only=True):
             'late_shift': draw(st.sampled_from([91, 4, 2])),
             'second_source_also_quotes': draw(st.sampled_from([False, False, True])),
             'first_source_other_symbols': draw(st.sampled_from([False, False, True])),
+            'handler_universe': draw(st.sampled_from([None, None, 'later', 'empty'])),
             'tz': draw(st.sampled_from([None, None, 'America/New_York', 'Asia/Tokyo'])),
             'broker_days_back': draw(st.sampled_from([0, 0, 1, 4, 9])),
             'blank_first_open': blank, 'where': where, 'symbols': syms, 't': t, 'weights': w, 'equity': draw(st.sampled_from([1e6, 1e4, 250000.0])),
